@@ -9,11 +9,13 @@ prop("C18",
      min_nontrivial={"quick": 200, "thorough": 1000},
      min_obs={"quick": {"lazy_runs": 100, "cache_runs": 100, "project_runs": 50, "objective_runs": 40, "scatter_runs": 40,
                         "lazy_first_use_events": 20, "cache_inserts": 100, "bp_local_images_created": 10,
-                        "dist_viewgram_events": 50},
+                        "dist_viewgram_events": 50,
+                        # projection data shared by all threads through ONE fstream (ProjDataFromStream), as in a real reconstruction
+                        "objective_runs_file_backed": 30, "project_runs_file_backed": 40},
               "thorough": {"lazy_runs": 1000, "objective_runs": 300}},
      rule=("case = one workload (round robin: lazy geometry tables used concurrently from the first call / system-matrix cache "
            "from the first call / whole-data forward+back projection / log-likelihood gradient, value, sensitivity, Hessian product "
-           "through distributable_computation / single-scatter simulation) on a generated small geometry, with 2..16 threads (also "
+           "through distributable_computation and the (approximate) Hessian loops, with the measured data and additive term in memory or in an Interfile file that all threads read through one shared stream / single-scatter simulation) on a generated small geometry, with 2..16 threads (also "
            "more threads than work items), repeated with FRESH objects so every first-use race is re-armed, under a seeded PCT-style "
            "schedule perturbation injected at STIR's own synchronisation points; compared with the single-thread run.  "
            "non-trivial = every repetition ran with >1 thread and was compared; distinct = distinct interleaving signatures "
